@@ -198,6 +198,18 @@ fn audit(rel: &Relation, noise_above: bool, reduce_below_noise: bool, path: &mut
     }
 }
 
+/// a rewritten relation without its generated names: node kinds, column counts, which Maps draw noise, which tables are read, and the event
+fn signature(rel: &Relation, event: &str) -> String {
+    fn walk(r: &Relation, out: &mut String) {
+        let kind = match r { Relation::Table(t) => format!("T:{}", t.name()), Relation::Map(m) => format!("M{}{}{}", m.schema().len(), if m.projection().iter().any(|e| format!("{e}").contains("random")) { "~" } else { "" }, if m.filter().is_some() { "?" } else { "" }),
+            Relation::Reduce(x) => format!("R{}g{}", x.schema().len(), x.group_by().len()), Relation::Join(j) => format!("J{}", j.schema().len()), Relation::Set(x) => format!("S{}", x.schema().len()), Relation::Values(v) => format!("V{}", v.schema().len()) };
+        out.push_str(&kind); out.push('(');
+        for i in r.inputs() { walk(i, out); out.push(','); }
+        out.push(')');
+    }
+    let mut s = String::new(); walk(rel, &mut s); format!("{s} event {event}")
+}
+
 pub fn eval(case: &J) -> Outcome {
     let mut out = Outcome::new();
     let sql = case["sql"].as_str().unwrap();
@@ -221,9 +233,18 @@ pub fn eval(case: &J) -> Outcome {
         let sel = elim.select_rewriting_rules(RewritingRulesSelector);
         let scored: Vec<(J, &'static str, f64)> = sel.iter().map(|d| (jderiv(d), lab(d.attributes().output()), d.accept(Score))).collect();
         let all = brute(&with_rules);
-        (tree, jelim, scored, all)
+        // what applying the arg-max derivation gives (filter by acceptable root + max_by, as the entry points do), as a name-free signature:
+        // the entry points must return exactly this
+        let applied = |acc: &[&str]| -> Option<String> {
+            let mut best: Option<usize> = None;
+            for (i, sc) in scored.iter().enumerate() { if acc.contains(&sc.1) { best = match best { Some(b) if scored[b].2 > sc.2 => Some(b), _ => Some(i) }; } }
+            let i = best?;
+            guarded(|| { let rw = sel[i].rewrite(qrlew::rewriting::rewriting_rule::Rewriter::new(&rels)); signature(rw.relation(), &format!("{:?}", rw.dp_event())) }).ok()
+        };
+        let (sig_dp, sig_pup) = (applied(&["pub", "pubd", "dp", "sd"]), applied(&["pub", "pup"]));
+        (tree, jelim, scored, all, sig_dp, sig_pup)
     });
-    let (tree, jelim, scored, all) = match r { Ok(x) => x, Err((loc, msg)) => { out.fail(&format!("C18/rules/search-panic/{}", site(&loc, &msg)), format!("{sql}: {msg}")); out.tag("trivial"); return out; } };
+    let (tree, jelim, scored, all, sig_dp, sig_pup) = match r { Ok(x) => x, Err((loc, msg)) => { out.fail(&format!("C18/rules/search-panic/{}", site(&loc, &msg)), format!("{sql}: {msg}")); out.tag("trivial"); return out; } };
     out.tag(&format!("derivations={}", match scored.len() { 0 => "0", 1..=9 => "1-9", 10..=99 => "10-99", _ => "100+" }));
     if scored.len() < 2 { out.tag("trivial"); }
     // replicate the entry points' filter + max_by on the real selection result
@@ -267,6 +288,13 @@ pub fn eval(case: &J) -> Outcome {
             if (c as f64) < b { out.fail(&format!("C13/rules/{name}/not-best-score"), format!("{sql}: the derivation applied has score {c} but a consistent acceptable derivation with score {b} exists")); }
         }
         if let Some(d) = chosen.get("deriv") { check_consistent(d, &tree, name, sql, &mut out); }
+        // the rewriting returned is the rewriting of the best-scoring derivation, not of another acceptable one
+        let (res, want) = if name == "dp" { (&dp_res, &sig_dp) } else { (&pup_res, &sig_pup) };
+        if let (Ok(Ok(rw)), Some(want)) = (res, want) {
+            let got = signature(rw.relation(), &format!("{:?}", rw.dp_event()));
+            if &got != want { out.fail(&format!("C13/rules/{name}/applied-derivation-is-not-the-selected-one"), format!("{sql}: the entry point returns a rewriting with signature {got}, the rewriting of the best-scoring acceptable derivation has {want}")); }
+            else { out.tag("applied-signature-checked"); }
+        }
     }
     // C02 audit of what the DP compiler returned
     if let Ok(Ok(rw)) = &dp_res {
